@@ -321,6 +321,8 @@ def _trivially_safe(stmt):
             return True
     if isinstance(stmt, ast.Expr) and isinstance(stmt.value, ast.Constant):
         return True
+    if isinstance(stmt, ast.Return) and (stmt.value is None or isinstance(stmt.value, (ast.Constant, ast.Name))):
+        return True
     return False
 
 
